@@ -27,7 +27,7 @@ theorem resolveStep_eq {c d r : Clause} (h : resolveStep c d = some r) :
       · simpa using h.symm
     · simp at h
 
-theorem resolveStep_sound {c d r : Clause} {σ : Nat → Bool} (h : resolveStep c d = some r)
+theorem resolveStep_entails {c d r : Clause} {σ : Nat → Bool} (h : resolveStep c d = some r)
     (hc : ∃ l ∈ c, σ l.1 = l.2) (hd : ∃ l ∈ d, σ l.1 = l.2) : ∃ l ∈ r, σ l.1 = l.2 := by
   obtain ⟨l, _, _, hcl, hdl, rfl⟩ := resolveStep_eq h
   obtain ⟨l1, h1, s1⟩ := hc
@@ -66,7 +66,7 @@ theorem replayFold_entailed (base cnf : CNF) (P : Nat → Prop)
     split at hc
     · rename_i c0 d hd
       intro σ hσ
-      exact resolveStep_sound hc (hacc c0 rfl σ hσ) (hP j (hj j List.mem_cons_self) d hd σ hσ)
+      exact resolveStep_entails hc (hacc c0 rfl σ hσ) (hP j (hj j List.mem_cons_self) d hd σ hσ)
     · simp at hc
 
 theorem replayProof_entailed {base cnf : CNF} {P : Nat → Prop}
@@ -124,7 +124,7 @@ theorem checkTrace_entailed {c : CNF} {n0 : Nat} {ps : List (Nat × List Nat)}
           exact ⟨l, (sameSet_mem hrep l).mp hl, hs⟩
         · simp at hrep
 
-theorem checkTrace_sound {c : CNF} {n0 : Nat} {ps : List (Nat × List Nat)}
+theorem checkTrace_unsat {c : CNF} {n0 : Nat} {ps : List (Nat × List Nat)}
     (h : checkTrace c n0 ps = true) : ¬ ∃ σ, Sat σ (c.take n0) := by
   rintro ⟨σ, hσ⟩
   have hlast : c.getLast? = some [] := by
